@@ -54,7 +54,7 @@ def run(ctx):
             cand = [s for s in singles if s[0] == fk]
             carriers.append((fk, 'decl', rng.choice(cand)))
         for (fk, mode, single) in carriers:
-            for reuse in (False, True):
+            for reuse in (False, True, 'cross'):
                 nfiles = rng.choice([2, 3]) if ctx.quick() else rng.choice([2, 3, 4])
                 if mode == 'parse':
                     files = units.split_files(rng, base + other, nfiles - 1)
@@ -67,7 +67,12 @@ def run(ctx):
                     if reuse:
                         # an accompanying valid declaration with the name of the faulty declaration
                         faulty = next((d for d, b in zip(ds, base) if d != b), ds[-1])
-                        if faulty[0] in 'ESRA':
+                        same_kind_is_type = faulty[0] in 'ESRA'
+                        if reuse == 'cross': same_kind_is_type = not same_kind_is_type
+                        # (cross: a data type named like the faulty POU / a program named like the faulty type — the two live in
+                        #  different name tables of the analyzer and must not displace each other)
+                        if reuse == 'cross' and faulty[0] == 'C': continue
+                        if same_kind_is_type:
                             acc.append(('R', faulty[1], 1, 2))
                         else:
                             acc.append(('P', faulty[1], [units.var(7100, 'v', 'i')], [('a', 7100, [])]))
@@ -123,7 +128,7 @@ def run(ctx):
     for i, (c, io, mo) in enumerate(zip(cases, impl, model)):
         ctx.evaluations += 1
         ctx.count(f"fault:{c['fault']}")
-        ctx.count(f"mode:{c['mode']}{'+reuse' if c['reuse'] else ''}")
+        ctx.count(f"mode:{c['mode']}{'+reuse-' + str(c['reuse']) if c['reuse'] else ''}")
         status, codes = parse_impl(io)
         groups = parse_model(mo) if mo is not None else None
         show = {'fault': c['fault'], 'mode': c['mode'], 'reuse_name': c['reuse'], 'texts': c['texts'], 'unit': enc(c)}
